@@ -130,6 +130,8 @@ def c09(res: CheckResult) -> None:
               require_outcomes=["Violation", "ErrClass", "ErrInst", "ErrFact", "TypeError"])
     random_unit(res, "random programs beyond the exhaustive bounds", list(F.fam_random(res.tier, rng, "err")), ic)
     call_unit(res, "error factories whose parameters all carry defaults", list(F.fam_errdefaults(res.tier, rng)), ic)
+    from icv import tablecheck as T
+    T.check_misuse(res, ic, only=lambda cell: cell["m"].startswith("error_"))
     call_unit(res, "contract errors deriving from BaseException, the same contract violated three times in a row",
               list(F.fam_errbase(res.tier, rng)), ic)
 
